@@ -176,6 +176,16 @@ def rename_all_shapes():
             checks.append(("R%d::%s" % (i, v), conv(ws, c)))
         checks.append(("R%d::OverRidden" % i, conv(["over", "ridden"], cases[(i + 3) % 8])))
         checks.append(("FooBar%s" % "ABCDEFGH"[i], conv(["foo", "bar", "abcdefgh"[i]], c)))
+    # rename_all written before / after another, independent #[display(..)] attribute of the same item (seed C02-rename-all-overwritten-by-later-attr)
+    B = "#[display(bound(T: core::fmt::Display))]"
+    decls.append("#[derive(derive_more::Display)]\n#[display(rename_all = \"kebab-case\")]\n%s\npub enum RenFirst<T> { UnitVariant, #[display(\"{_0}\")] W(T) }\n"
+                 "#[derive(derive_more::Display)]\n%s\n#[display(rename_all = \"kebab-case\")]\npub enum RenLast<T> { UnitVariant, #[display(\"{_0}\")] W(T) }\n"
+                 "#[derive(derive_more::Display)]\npub enum RenVariant<T> { #[display(rename_all = \"SCREAMING_SNAKE_CASE\")] %s UnitVariant, %s #[display(rename_all = \"camelCase\")] OtherUnit, #[display(\"{_0}\")] W(T) }\n"
+                 "#[derive(derive_more::Display)]\n#[display(rename_all = \"snake_case\")]\n#[display(bound(u8: Copy))]\npub struct UnitRenFirst;\n"
+                 "#[derive(derive_more::Display)]\n#[display(bound(u8: Copy))]\n#[display(rename_all = \"snake_case\")]\npub struct UnitRenLast;" % (B, B, B, B))
+    checks += [("RenFirst::<u8>::UnitVariant", "unit-variant"), ("RenLast::<u8>::UnitVariant", "unit-variant"),
+               ("RenVariant::<u8>::UnitVariant", "UNIT_VARIANT"), ("RenVariant::<u8>::OtherUnit", "otherUnit"),
+               ("UnitRenFirst", "unit_ren_first"), ("UnitRenLast", "unit_ren_last")]
     src = ""
     hs = []
     for k in range(0, len(checks), 12):
